@@ -56,6 +56,9 @@ DEFECTS = {
         'with a single module a full lint skips aggregate rules but the aggregate-only lint after an edit runs them'),
     8: ('server.go:StartDiagnosticsWorker/no-publish-without-modules',
         'when no file of the workspace parses the workspace run is skipped and parse errors found at start-up are never published'),
+    16: ('lint.go:updateFileDiagnostics/file-job-straddles-delete',
+         'not job-atomic: a delete/rename handled while the file-lint job of that URI is in linter.Lint; the job stores the '
+         'aggregates of the deleted URI again (reproduced by the fine-grained schedule Model.Lsp.run_racy)'),
 }
 
 
@@ -164,7 +167,7 @@ def gen_jobs(ctx):
 
     quick = ctx.quick()
     # 1. exhaustive over the small alphabet (prefixes are covered by the checkpoints of step mode)
-    alpha = SMALL[:7] if quick else SMALL[:10]
+    alpha = SMALL[:6] if quick else SMALL[:10]
     depth = 2 if quick else 3
     seqs = [[]]
     for _ in range(depth):
@@ -189,7 +192,7 @@ def gen_jobs(ctx):
                 add('step', INITS[0], evs, 'exhaustive')
                 covered.add(json.dumps(evs))
     # 2. sampled histories of length 3-4 over the full small alphabet
-    n_s = 10 if quick else 250
+    n_s = 6 if quick else 250
     tries = 0
     while n_s > 0 and tries < 10000:
         tries += 1
@@ -200,7 +203,7 @@ def gen_jobs(ctx):
             add('step', init, evs, 'sampled-3-4')
             n_s -= 1
     # 3. random histories up to length 8 over 2-4 files, one at a time
-    n_r = 12 if quick else 300
+    n_r = 8 if quick else 300
     tries = 0
     while n_r > 0 and tries < 10000:
         tries += 1
@@ -213,7 +216,7 @@ def gen_jobs(ctx):
     # 4. bursts (real interleavings of handler, file worker, dispatcher + rate limiter, workspace worker).
     #    Parse failures are left to step mode: there the final state depends on the job-atomic schedule, so
     #    a burst could not be compared with a single prediction.
-    n_b = 14 if quick else 300
+    n_b = 10 if quick else 300
     tries = 0
     while n_b > 0 and tries < 10000:
         tries += 1
@@ -258,7 +261,7 @@ def build_test_binary(ctx, race=False):
     return out
 
 
-def run_binary(ctx, binary, test, inp, outp, timeout=1500, extra_env=None, workers=None):
+def run_binary(ctx, binary, test, inp, outp, timeout=3000, extra_env=None, workers=None):
     work = os.path.join(ctx.tmp, 'work')
     home = os.path.join(ctx.tmp, 'home')
     os.makedirs(work, exist_ok=True)
@@ -280,6 +283,9 @@ def run_histories(ctx, binary, jobs, name):
     rc, log = run_binary(ctx, binary, 'TestVerifC15Replay', inp, outp)
     if rc != 0 or not os.path.exists(outp):
         raise RuntimeError('C15 harness run failed (rc=%d):\n%s' % (rc, log[-4000:]))
+    if os.environ.get('VERIF_KEEP'):
+        os.makedirs(os.environ['VERIF_KEEP'], exist_ok=True)
+        shutil.copy(outp, os.path.join(os.environ['VERIF_KEEP'], 'c15_' + name + '_out.jsonl'))
     res = [json.loads(l) for l in open(outp)]
     by = {r['id']: r for r in res}
     return [by[j['id']] for j in jobs]
@@ -380,6 +386,14 @@ def coq_list_of_N(out, marker):
     return [int(x) for x in re.findall(r'\d+', m.group(1))]
 
 
+def tick(ctx, what):
+    import time
+    ctx.timing = getattr(ctx, 'timing', [])
+    ctx.timing.append((what, round(time.time() - ctx.t0, 1)))
+    if os.environ.get('VERIF_DEBUG'):
+        print('[c15] %6.1fs %s' % (time.time() - ctx.t0, what), flush=True)
+
+
 # ------------------------------------------------------------------ the check
 def build_cases(runs, jobs):
     """one case per quiescent point: every checkpoint of a step run and the final state of every run"""
@@ -424,6 +438,7 @@ def evaluate(ctx, binary, cases):
     rc, out = vlib.coq_eval(ctx, 'Keys_C15', '\n'.join(v))
     if rc != 0:
         raise RuntimeError('C15 key discovery failed:\n' + out[-3000:])
+    tick(ctx, 'coq pass 1 (oracle keys)')
     markers = sorted(set(coq_list_of_N(out, 'K1') or []))
     fkeys, akeys = set(), {}
     for p in markers:
@@ -442,6 +457,7 @@ def evaluate(ctx, binary, cases):
     rc, log = run_binary(ctx, binary, 'TestVerifC15Oracle', inp, outp)
     if rc != 0 or not os.path.exists(outp):
         raise RuntimeError('C15 oracle run failed:\n' + log[-3000:])
+    tick(ctx, 'oracle tables (%d file lints, %d aggregate reports)' % (len(fkeys), len(alist)))
     o = json.load(open(outp))
     if o.get('errors'):
         raise RuntimeError('C15 oracle errors: %r' % o['errors'][:5])
@@ -561,14 +577,6 @@ def shrink(ctx, binary, c, still_bad):
     return cur
 
 
-def tick(ctx, what):
-    import time
-    ctx.timing = getattr(ctx, 'timing', [])
-    ctx.timing.append((what, round(time.time() - ctx.t0, 1)))
-    if os.environ.get('VERIF_DEBUG'):
-        print('[c15] %6.1fs %s' % (time.time() - ctx.t0, what), flush=True)
-
-
 def run(ctx):
     tick(ctx, 'start (coq built)')
     binary = build_test_binary(ctx)
@@ -577,11 +585,9 @@ def run(ctx):
         rp = json.load(open(ctx.replay))
         jobs = [dict(rp['case'], id=0, tag='replay')] if 'case' in rp else []
     else:
-        jobs = corpus_jobs()
-        gen = gen_jobs(ctx)
-        for j in gen:
-            j['id'] = len(jobs)
-            jobs.append(j)
+        jobs = corpus_jobs() + gen_jobs(ctx)
+        for i, j in enumerate(jobs):
+            j['id'] = i
     runs = run_histories(ctx, binary, jobs, 'hist') if jobs else []
     tick(ctx, '%d histories run' % len(jobs))
     cases = build_cases(runs, jobs)
@@ -602,7 +608,7 @@ def run(ctx):
     for i in ev['div']:
         c = cases[i]
         mask = ev['attr'].get(i, 64)
-        explained = i not in ev['model_mismatch'] and (mask & 64) == 0 and (mask & 15) != 0
+        explained = i not in ev['model_mismatch'] and (mask & 64) == 0 and (mask & 31) != 0
         if explained:
             for bit, (key, what) in DEFECTS.items():
                 if mask & bit:
